@@ -18,7 +18,13 @@ pub fn gen_case(t: &mut Tape, tier: Tier) -> Option<G> {
         if g.nedges() > tier.pick(10, 12) {
             return None;
         }
-        if t.chance(0.2) {
+        if t.chance(0.02) {
+            // propagator powers beyond 171: Gamma(w) overflows in f64 (recorded as a known finding)
+            let f = t.uniform(172.0, 400.0) / g.weights.iter().cloned().fold(0.0, f64::max);
+            for w in g.weights.iter_mut() {
+                *w = (*w * f * 2.0).round() / 2.0;
+            }
+        } else if t.chance(0.2) {
             // a barely convergent subgraph: omega a few ulps (or 1/64, 1e-6, ...) above zero
             gen::push_to_boundary(t, &mut g);
         }
@@ -115,7 +121,9 @@ fn check_d<const D: usize>(g: &G, ctx: &mut Ctx) -> Result<(), Failure> {
         let ln_want = jt[full].ln() + ln_gamma(dod) - g.weights.iter().map(|&w| ln_gamma(w)).sum::<f64>() + (D * nl) as f64 / 2.0 * std::f64::consts::PI.ln();
         let got = tab.cached_factor;
         if !(got.is_finite() && got > 0.0) {
-            fail!("cached-factor-sign", "cached normalisation {got} is not finite and positive (dod={dod}) for {g:?}");
+            let overflow = dod >= 171.0 || g.weights.iter().any(|w| *w >= 171.0);
+            let sig = if overflow { "cached-factor-nonfinite:gamma-overflow(weight-or-dod>=171)" } else { "cached-factor-sign" };
+            fail!(sig, "cached normalisation {got} is not finite and positive (dod={dod}) for {g:?}");
         }
         let nterms = ne as f64 + 3.0;
         let scale = jt[full].ln().abs() + ln_gamma(dod).abs() + g.weights.iter().map(|&w| ln_gamma(w).abs()).sum::<f64>() + (D * nl) as f64;
